@@ -31,6 +31,7 @@ def processLine (line : String) : String :=
       | "flr" => handleFlr kv
       | "win" => handleWin kv
       | "bz" => handleBz kv
+      | "bzw" => handleBzw kv
       | "rle1e" => handleRle1e kv
       | "rle1d" => handleRle1d kv
       | "mtfe" => handleMtfe kv
